@@ -2540,15 +2540,20 @@ Proof.
   intros e' He'. apply H. right. exact He'.
 Qed.
 
-Lemma docpart_facts : forall sdoc, no_rest_token sdoc = true -> strip sdoc = sdoc ->
-    no_rest_token ([nl] ++ sdoc ++ nl2) = true /\ strip ([nl] ++ sdoc ++ nl2) = sdoc.
+Lemma docpart_facts : forall sdoc ws, no_rest_token sdoc = true -> strip sdoc = sdoc ->
+    forallb isspace ws = true ->
+    no_rest_token ([nl] ++ sdoc ++ ws) = true /\ strip ([nl] ++ sdoc ++ ws) = sdoc.
 Proof.
-  intros sdoc Htok Hs. split.
+  intros sdoc ws Htok Hs Hws. split.
   - apply no_rest_token_app_l; [reflexivity| |].
-    + apply no_rest_token_ws; [exact Htok|reflexivity].
+    + apply no_rest_token_ws; [exact Htok|exact Hws].
     + intros c Hc. injection Hc as Hc. subst c. split; [reflexivity|discriminate].
-  - destruct sdoc as [|c r]; [reflexivity|].
-    apply strip_pad; [reflexivity|reflexivity|]. apply strip_fix_edge_ok; [discriminate|exact Hs].
+  - destruct sdoc as [|c r].
+    + cbn [app]. change (nl :: ws) with ([nl] ++ ws).
+      assert (Hall : forallb isspace ([nl] ++ ws) = true) by (cbn [app forallb]; rewrite Hws; reflexivity).
+      unfold strip, strip_by. change (lstrip_by isspace) with lstrip.
+      rewrite <- (app_nil_r ([nl] ++ ws)). rewrite (lstrip_pad _ [] Hall). reflexivity.
+    + apply strip_pad; [reflexivity|exact Hws|]. apply strip_fix_edge_ok; [discriminate|exact Hs].
 Qed.
 
 Lemma rest_scan_tokens_eq : rest_scan_tokens = Extracted.rest_tokens.
@@ -2562,82 +2567,121 @@ Proof.
   destruct text as [|c r]; [contradiction|]. rewrite Hs. reflexivity.
 Qed.
 
-Theorem C01_rest_partial_lemma : forall edd i, guard_C01_rest edd i = true -> C01_rest_at edd i.
+(* the optional return entry: its blocks, the dict it leaves, its text after the parameters *)
+Lemma returns_part : forall edd irets,
+    (match irets with Has g => entry_in_domain g | _ => true end) = true ->
+    match fld_opt irets with Some g => return_class g | None => None end = None ->
+    exists rblocks orp,
+      (forall ww st, rs_returns st = None ->
+          fold_outcome (step ww edd) (map as_line rblocks) st
+          = Ok (mkRS (rs_doc st) (rs_params st) orp (rs_cur st)))
+      /\ map_returns (fun p => interpolate_defaults p default_announces false edd) orp = Ok orp
+      /\ (exists rtxt, (match irets with
+                        | Has g => do t <- rest_param_text (L "return_type") g; Ok (nl :: t)
+                        | _ => Ok [] end) = Ok rtxt
+                       /\ [nl] ++ rtxt ++ [nl] = nl2 ++ concat (map blk rblocks))
+      /\ (forall b, In b rblocks -> block_good b)
+      /\ same_returns edd irets (match orp with None => FNone | Some r => Has (gparam_of_param r) end) = true
+      /\ (fld_opt irets <> None -> rblocks <> []).
+Proof.
+  intros edd irets Hret_dom Hretc.
+  destruct irets as [| |g]; cbn [fld_opt] in Hretc.
+  - exists [], None. split; [intros ww st Hst; destruct st; cbn in *; subst; reflexivity|].
+    split; [reflexivity|]. split; [exists []; split; reflexivity|]. split; [intros b []|].
+    split; [reflexivity|]. intros H. exfalso. apply H. reflexivity.
+  - exists [], None. split; [intros ww st Hst; destruct st; cbn in *; subst; reflexivity|].
+    split; [reflexivity|]. split; [exists []; split; reflexivity|]. split; [intros b []|].
+    split; [reflexivity|]. intros H. exfalso. apply H. reflexivity.
+  - destruct (return_entry edd g Hret_dom Hretc) as [rblocks [rp [H1 [H2 [[rtxt [H3 H3']] [H4 H5]]]]]].
+    exists rblocks, (Some rp). split; [exact H1|]. split; [cbn [map_returns]; rewrite H2; reflexivity|].
+    split; [|split; [exact H4|split]].
+    + exists (nl :: rtxt). rewrite H3. split; [reflexivity|]. rewrite <- H3'. unfold nl1, nl2.
+      cbn [app]. reflexivity.
+    + unfold same_returns. cbn [fld_opt opt_eqb]. exact H5.
+    + intros _ E. subst rblocks. cbn [map concat] in H3'. destruct rtxt; discriminate.
+Qed.
+
+(* reading the guard *)
+Lemma guard_C01_rest_inv : forall edd i, guard_C01_rest edd i = true ->
+    exists sdoc,
+      ir_doc i = Has sdoc /\ no_rest_token sdoc = true /\ strip sdoc = sdoc
+      /\ forallb param_in_domain (ir_params i) = true
+      /\ nodup_str (map fst (ir_params i)) = true
+      /\ (match ir_returns i with Has g => entry_in_domain g | _ => true end) = true
+      /\ first_class (fun kv => param_class edd (fst kv) (snd kv)) (ir_params i) = None
+      /\ match fld_opt (ir_returns i) with Some g => return_class g | None => None end = None
+      /\ (ir_params i = [] -> fld_opt (ir_returns i) <> None).
 Proof.
   intros edd i Hg. unfold guard_C01_rest in Hg. apply andb_true_iff in Hg. destruct Hg as [Hdom Hcls].
   destruct (finding_class_C01_rest false edd i) as [k|] eqn:Hc; [discriminate|]. clear Hcls.
-  (* the domain *)
   unfold in_domain_C01 in Hdom.
   apply andb_true_iff in Hdom. destruct Hdom as [Hdom Hret_dom].
   apply andb_true_iff in Hdom. destruct Hdom as [Hdom Hnodup].
   apply andb_true_iff in Hdom. destruct Hdom as [Hsum Hparams].
-  destruct i as [iname itype idoc ps irets iint]. cbn [ir_doc ir_params ir_returns] in *.
-  destruct idoc as [| |sdoc]; try discriminate.
-  (* the classifier *)
-  unfold finding_class_C01_rest in Hc. cbn [andb ir_params ir_returns ir_doc] in Hc.
-  destruct ps as [|p0 ps0]; [destruct (fld_opt irets); discriminate|].
-  set (ps := p0 :: ps0) in *.
+  destruct (ir_doc i) as [| |sdoc] eqn:Edoc; try discriminate.
+  exists sdoc. split; [reflexivity|]. split; [exact Hsum|].
+  unfold finding_class_C01_rest in Hc. cbn [andb] in Hc. rewrite Edoc in Hc.
   assert (Hc' : str_eqb (strip sdoc) sdoc = true
-                /\ first_class (fun kv => param_class edd (fst kv) (snd kv)) ps = None
-                /\ match fld_opt irets with Some g => return_class g | None => None end = None).
-  { destruct (str_eqb (strip sdoc) sdoc); cbn [negb] in Hc; [|discriminate].
-    destruct (first_class (fun kv => param_class edd (fst kv) (snd kv)) ps); [discriminate|].
-    repeat split. exact Hc. }
-  clear Hc. destruct Hc' as [Hstrip [Hfirst Hretc]]. apply str_eqb_eq in Hstrip.
+                /\ first_class (fun kv => param_class edd (fst kv) (snd kv)) (ir_params i) = None
+                /\ match fld_opt (ir_returns i) with Some g => return_class g | None => None end = None
+                /\ (ir_params i = [] -> fld_opt (ir_returns i) <> None)).
+  { destruct (ir_params i) as [|p0 ps0]; destruct (fld_opt (ir_returns i)) as [g|]; try discriminate.
+    - destruct (str_eqb (strip sdoc) sdoc); cbn [negb] in Hc; [|discriminate].
+      cbn [first_class] in Hc. repeat split; try exact Hc. intros _. discriminate.
+    - destruct (str_eqb (strip sdoc) sdoc); cbn [negb] in Hc; [|discriminate].
+      destruct (first_class (fun kv => param_class edd (fst kv) (snd kv)) (p0 :: ps0)); [discriminate|].
+      repeat split; try exact Hc. intros E. discriminate.
+    - destruct (str_eqb (strip sdoc) sdoc); cbn [negb] in Hc; [|discriminate].
+      destruct (first_class (fun kv => param_class edd (fst kv) (snd kv)) (p0 :: ps0)); [discriminate|].
+      repeat split. intros E. discriminate. }
+  destruct Hc' as [Hstrip [Hfirst [Hretc Hne]]]. apply str_eqb_eq in Hstrip.
+  repeat (split; [assumption|]). assumption.
+Qed.
+
+Theorem C01_rest_partial_lemma : forall edd i, guard_C01_rest edd i = true -> C01_rest_at edd i.
+Proof.
+  intros edd i Hg.
+  destruct (guard_C01_rest_inv edd i Hg) as
+      [sdoc [Edoc [Hsum [Hstrip [Hparams [Hnodup [Hret_dom [Hfirst [Hretc Hsome]]]]]]]]].
+  destruct i as [iname itype idoc ps irets iint]. cbn [ir_doc ir_params ir_returns] in *. subst idoc.
   (* the parameters as entries *)
   destruct (entries_exist true edd ps Hparams Hfirst) as [es Hes].
   pose proof (entries_names _ _ _ _ Hes) as Hnames.
   pose proof (entries_ok _ _ _ _ Hes) as Hoks.
   destruct (entries_text _ _ _ _ Hes) as [txts [Htxts [Htext Hlen]]].
-  assert (Hes_ne : exists e1 es1, es = e1 :: es1).
-  { inversion Hes; subst. eexists. eexists. reflexivity. }
-  destruct Hes_ne as [e1 [es1 Ees]].
-  assert (Htxts_ne : txts <> []).
-  { intros E. subst txts. unfold ps in Hlen. discriminate. }
   (* the return entry *)
-  assert (Hret : exists rblocks orp,
-             (forall ww st, rs_returns st = None ->
-                 fold_outcome (step ww edd) (map as_line rblocks) st
-                 = Ok (mkRS (rs_doc st) (rs_params st) orp (rs_cur st)))
-             /\ map_returns (fun p => interpolate_defaults p default_announces false edd) orp = Ok orp
-             /\ (exists rtxt, (match irets with
-                               | Has g => do t <- rest_param_text (L "return_type") g; Ok (nl :: t)
-                               | _ => Ok [] end) = Ok rtxt
-                              /\ [nl] ++ rtxt ++ [nl] = nl2 ++ concat (map blk rblocks))
-             /\ (forall b, In b rblocks -> block_good b)
-             /\ same_returns edd irets (match orp with None => FNone | Some r => Has (gparam_of_param r) end) = true).
-  { destruct irets as [| |g]; cbn [fld_opt] in Hretc.
-    - exists [], None. split; [intros ww st Hst; destruct st; cbn in *; subst; reflexivity|].
-      split; [reflexivity|]. split; [exists []; split; reflexivity|]. split; [intros b []|reflexivity].
-    - exists [], None. split; [intros ww st Hst; destruct st; cbn in *; subst; reflexivity|].
-      split; [reflexivity|]. split; [exists []; split; reflexivity|]. split; [intros b []|reflexivity].
-    - destruct (return_entry edd g Hret_dom Hretc) as [rblocks [rp [H1 [H2 [[rtxt [H3 H3']] [H4 H5]]]]]].
-      exists rblocks, (Some rp). split; [exact H1|]. split; [cbn [map_returns]; rewrite H2; reflexivity|].
-      split; [|split; [exact H4|]].
-      + exists (nl :: rtxt). rewrite H3. split; [reflexivity|]. rewrite <- H3'. unfold nl1, nl2.
-        cbn [app]. reflexivity.
-      + unfold same_returns. cbn [fld_opt opt_eqb]. exact H5. }
-  destruct Hret as [rblocks [orp [Hrrun [Hrpost [[rtxt [Hrtxt Hrtext]] [Hrgood Hrsame]]]]]].
-  (* the text *)
-  set (docpart := [nl] ++ sdoc ++ nl2).
+  destruct (returns_part edd irets Hret_dom Hretc)
+    as [rblocks [orp [Hrrun [Hrpost [[rtxt [Hrtxt Hrtext]] [Hrgood [Hrsame Hrne]]]]]]].
+  (* the text: after the summary come two line breaks, and two more when there is no parameter *)
+  set (sep := match ps with [] => nl2 ++ nl2 | _ => nl2 end).
+  set (docpart := [nl] ++ sdoc ++ sep).
   set (blocks := all_blocks es ++ rblocks).
   assert (Htext_eq : rest_text_of (mkIR iname itype (Has sdoc) ps irets iint)
                      = Ok (docpart ++ concat (map blk blocks))).
   { unfold rest_text_of. cbn [ir_doc ir_params ir_returns bind]. rewrite Htxts. cbn [bind].
-    rewrite Hrtxt. cbn [bind]. f_equal. unfold docpart, blocks.
-    rewrite map_app, concat_app, <- Htext, <- (join_sep_concat nl2 txts Htxts_ne).
-    unfold nl2 in *. rewrite <- !app_assoc. f_equal. f_equal. f_equal. f_equal.
-    exact Hrtext. }
-  destruct (docpart_facts sdoc Hsum Hstrip) as [Hdoctok Hdocstrip]. fold docpart in Hdoctok, Hdocstrip.
+    rewrite Hrtxt. cbn [bind]. f_equal. unfold docpart, blocks, sep.
+    rewrite map_app, concat_app, <- Htext.
+    destruct ps as [|p0 ps0].
+    - destruct txts; [|discriminate]. cbn [join map concat]. unfold nl2 in *.
+      cbn [app] in *. rewrite <- !app_assoc. cbn [app]. f_equal. f_equal. f_equal. f_equal.
+      cbn [app] in Hrtext. exact Hrtext.
+    - assert (Htxts_ne : txts <> []) by (intros E; subst txts; discriminate).
+      rewrite <- (join_sep_concat nl2 txts Htxts_ne).
+      unfold nl2 in *. rewrite <- !app_assoc. f_equal. f_equal. f_equal. f_equal. exact Hrtext. }
+  assert (Hsepws : forallb isspace sep = true) by (unfold sep; destruct ps; reflexivity).
+  destruct (docpart_facts sdoc sep Hsum Hstrip Hsepws) as [Hdoctok Hdocstrip]. fold docpart in Hdoctok, Hdocstrip.
   assert (Hblocks_good : forall b, In b blocks -> block_good b).
   { intros b Hb. unfold blocks in Hb. apply in_app_or in Hb. destruct Hb as [Hb|Hb].
     - apply (entries_blocks_good _ _ _ _ Hes b Hb).
     - apply Hrgood. exact Hb. }
   assert (Hblocks_ne : exists b0, In b0 blocks).
-  { destruct (Hoks e1) as [_ [_ [_ Hne]]]; [rewrite Ees; left; reflexivity|].
-    destruct (e_blocks e1) as [|b0 bl] eqn:Eb; [contradiction|].
-    exists b0. unfold blocks, all_blocks. rewrite Ees. cbn [map concat]. rewrite Eb.
-    left. reflexivity. }
+  { destruct es as [|e1 es1].
+    - assert (Eps : ps = []) by (inversion Hes; reflexivity).
+      destruct rblocks as [|b0 rb]; [exfalso; apply (Hrne (Hsome Eps)); reflexivity|].
+      exists b0. unfold blocks. cbn [all_blocks map concat app]. left. reflexivity.
+    - destruct (Hoks e1) as [_ [_ [_ Hne]]]; [left; reflexivity|].
+      destruct (e_blocks e1) as [|b0 bl] eqn:Eb; [contradiction|].
+      exists b0. unfold blocks, all_blocks. cbn [map concat]. rewrite Eb. left. reflexivity. }
   (* the scanner *)
   assert (Hscan : scan_rest (docpart ++ concat (map blk blocks)) = (false, docpart) :: map as_line blocks).
   { apply scan_rest_blocks; [exact Hdoctok|exact Hblocks_good|].
@@ -2645,33 +2689,38 @@ Proof.
   (* the parse phase *)
   assert (Hnd : NoDup (map e_name es)).
   { rewrite Hnames. apply nodup_str_NoDup. exact Hnodup. }
-  assert (Hphase : parse_phase_rest ((false, docpart) :: map as_line blocks) false true true edd
-                   = Ok (mkRS sdoc (map (fun e => (e_name e, e_mid e)) es) orp
-                              (snd (run_spec es [] (None, empty_param))))).
+  assert (Hphase : exists cur', parse_phase_rest ((false, docpart) :: map as_line blocks) false true true edd
+                   = Ok (mkRS sdoc (map (fun e => (e_name e, e_mid e)) es) orp cur')).
   { unfold parse_phase_rest. cbn [fold_outcome]. unfold parse_rest_line at 1. cbn [init_rstate rs_doc].
     rewrite Hdocstrip. unfold init_rstate. cbn [bind rs_params rs_returns rs_cur rs_doc].
     unfold blocks. rewrite map_app, fold_outcome_app, <- all_lines_blocks.
     fold (step true edd).
-    rewrite (run_entries true edd es sdoc [] None (None, empty_param) Hoks).
-    2:{ rewrite Ees. cbn [names_ok]. split; [reflexivity|].
-        apply (names_ok_of_nodup true edd).
-        - intros e He. apply Hoks. rewrite Ees. right. exact He.
-        - destruct (Hoks e1) as [[_ Hb] _]; [rewrite Ees; left; reflexivity|exact Hb].
-        - rewrite Ees in Hnd. exact Hnd. }
-    cbn [bind]. rewrite Hrrun by reflexivity. cbn [bind rs_doc rs_params rs_returns rs_cur].
-    (* the final flush *)
-    rewrite Ees. cbn [run_spec]. change (flushed [] (None, empty_param)) with (@nil (str * param)).
-    destruct (final_params es1 [] (e_name e1) (e_mid e1)) as [nl' [pl [H1 [H2 H3]]]].
-    { cbn [map app]. rewrite Ees in Hnd. exact Hnd. }
-    rewrite H1. cbn [fst snd].
-    assert (Hlast : exists e, In e es /\ nl' = e_name e /\ pl = e_mid e).
-    { destruct H3 as [[E1 [E2 E3]]|[e [He [E2 E3]]]].
-      - exists e1. rewrite Ees. split; [left; reflexivity|]. split; assumption.
-      - exists e. rewrite Ees. split; [right; exact He|]. split; assumption. }
-    destruct Hlast as [el [Hel [Enl Epl]]]. subst nl' pl.
-    destruct (Hoks el Hel) as [_ [[_ [[mi [HI HS]] _]] _]].
-    rewrite HI. cbn [bind]. rewrite HS. cbn [bind fst snd]. unfold maybe_remove. rewrite andb_false_r. cbn [bind].
-    rewrite H2. reflexivity. }
+    destruct es as [|e1 es1].
+    - (* no parameter: the running pair never gets a name, nothing is flushed *)
+      cbn [all_lines map concat fold_outcome bind].
+      rewrite Hrrun by reflexivity. cbn [bind rs_doc rs_params rs_returns rs_cur fst].
+      eexists. reflexivity.
+    - rewrite (run_entries true edd (e1 :: es1) sdoc [] None (None, empty_param) Hoks).
+      2:{ cbn [names_ok]. split; [reflexivity|].
+          apply (names_ok_of_nodup true edd).
+          - intros e He. apply Hoks. right. exact He.
+          - destruct (Hoks e1) as [[_ Hb] _]; [left; reflexivity|exact Hb].
+          - exact Hnd. }
+      cbn [bind]. rewrite Hrrun by reflexivity. cbn [bind rs_doc rs_params rs_returns rs_cur].
+      (* the final flush *)
+      cbn [run_spec]. change (flushed [] (None, empty_param)) with (@nil (str * param)).
+      destruct (final_params es1 [] (e_name e1) (e_mid e1)) as [nl' [pl [H1 [H2 H3]]]].
+      { cbn [map app]. exact Hnd. }
+      rewrite H1. cbn [fst snd].
+      assert (Hlast : exists e, In e (e1 :: es1) /\ nl' = e_name e /\ pl = e_mid e).
+      { destruct H3 as [[E1 [E2 E3]]|[e [He [E2 E3]]]].
+        - exists e1. split; [left; reflexivity|]. split; assumption.
+        - exists e. split; [right; exact He|]. split; assumption. }
+      destruct Hlast as [el [Hel [Enl Epl]]]. subst nl' pl.
+      destruct (Hoks el Hel) as [_ [[_ [[mi [HI HS]] _]] _]].
+      rewrite HI. cbn [bind]. rewrite HS. cbn [bind fst snd]. unfold maybe_remove. rewrite andb_false_r. cbn [bind].
+      rewrite H2. eexists. reflexivity. }
+  destruct Hphase as [cur' Hphase].
   (* the whole parse *)
   assert (Hparse : parse_rest (docpart ++ concat (map blk blocks)) false true true edd
                    = Ok (ir_of_parts sdoc (map (fun e => (e_name e, e_fin e)) es) orp)).
@@ -2722,20 +2771,25 @@ Definition mk_ir (doc : str) (ps : list (str * gparam)) (r : fld gparam) : ir :=
 Definition gp (doc typ : option str) (dflt : option pyval) : gparam :=
   mkG (fld_of_opt doc) (fld_of_opt typ) (option_map DV dflt).
 
-(* a docstring that documents only a return value: the parser raises AttributeError *)
+(* a docstring that documents only a return value: since the parser only flushes a named pending
+   parameter it round-trips, and is inside the guard *)
 Definition w_return_only : ir :=
   mk_ir (L "Summary.") [] (Has (gp (Some (L "the result.")) (Some (L "int")) None)).
 
-Lemma w_return_only_raises :
-  (do text <- rest_text_of w_return_only; parse_dot_docstring ng_unmodelled text false true true)
-  = Err AttributeError.
-Proof. vm_compute. reflexivity. Qed.
+Lemma w_return_only_round_trips :
+  guard_C01_rest true w_return_only = true /\ guard_C01_rest false w_return_only = true
+  /\ C01_rest_at_b true w_return_only = true /\ C01_rest_at_b false w_return_only = true.
+Proof. repeat split; vm_compute; reflexivity. Qed.
+
+(* a parameter with a type and a default but no prose: the default is only ever written into prose *)
+Definition w_type_only_default : ir :=
+  mk_ir (L "Summary.") [(L "lr", gp None (Some (L "float")) (Some (VFloat (L "0.5"))))] FNone.
 
 Theorem C01_rest_refuted_lemma : ~ C01_rest_statement.
 Proof.
   intros H.
-  assert (Hd : in_domain_C01 w_return_only = true) by (vm_compute; reflexivity).
-  specialize (H true w_return_only Hd).
+  assert (Hd : in_domain_C01 w_type_only_default = true) by (vm_compute; reflexivity).
+  specialize (H true w_type_only_default Hd).
   apply C01_rest_at_b_complete in H. vm_compute in H. discriminate.
 Qed.
 
@@ -2751,10 +2805,9 @@ Definition one (n : str) (g : gparam) : ir := mk_ir (L "Summary.") [(n, g)] FNon
 
 Definition class_witnesses : list (bool * c01_class * ir) :=
   [ (true, K01_no_entries, mk_ir (L "Summary.") [] FNone);
-    (true, K01_return_only, w_return_only);
     (true, K01_entry_vanishes,
      mk_ir (L "Summary.") [(L "a", gp (Some (L "first.")) (Some (L "int")) None); (L "b", gp None None None)] FNone);
-    (true, K01_type_only_default_lost, one (L "lr") (gp None (Some (L "float")) (Some (VFloat (L "0.5")))));
+    (true, K01_type_only_default_lost, w_type_only_default);
     (true, K01_prose_only_type_invented, one (L "n") (gp (Some (L "count.")) None (Some (VInt 5))));
     (true, K01_summary_shape, mk_ir (L " Summary.") [(L "a", gp (Some (L "first.")) (Some (L "int")) None)] FNone);
     (true, K01_prose_shape, one (L "a") (gp (Some (L "first line." ++ [nl] ++ L "second line.")) (Some (L "int")) None));
